@@ -674,6 +674,8 @@ pub struct FrozenInfo {
 	pub enforcement: BTreeMap<[u8; 32], EnforcementState>,
 	pub outbox_len: usize,
 	pub signer_log_len: usize,
+	/// the write during which the process died reached the disk: (channel, update id)
+	pub survivor: Option<([u8; 32], u64)>,
 }
 
 pub type Disk = Arc<Mutex<DiskState>>;
@@ -752,6 +754,7 @@ impl SimPersister {
 				enforcement: self.keys.snapshot_enforcement(),
 				outbox_len: self.broadcaster.len(),
 				signer_log_len: self.keys.log.lock().unwrap().len(),
+				survivor: if write_reaches_disk { Some((key, update_id)) } else { None },
 			});
 		}
 		status
